@@ -127,7 +127,11 @@ func Criteria() Spec {
 		fix(dateCrit("min=2019-12-31T23:59:59.999999999", KM, G, &baskettypes.DateCriteria{MinStartDate: gts(c11Starts[2])})),
 		fix(dateCrit("years=1", K0, G, &baskettypes.DateCriteria{YearsInThePast: 1})),
 		fix(dateCrit("none", KY, G, nil)),
-		fix(dateCrit("years=1", KM, A, &baskettypes.DateCriteria{YearsInThePast: 1})), // curator is not the authority
+		fix(dateCrit("years=1", KM, G, &baskettypes.DateCriteria{YearsInThePast: 1})),                          // min date -> years (another variant)
+		fix(dateCrit("years=10", KW, G, &baskettypes.DateCriteria{YearsInThePast: 10})),                        // window -> years
+		fix(dateCrit("min=epoch", KM, G, &baskettypes.DateCriteria{MinStartDate: gts(time.Unix(0, 0).UTC())})), // min date relaxed to the epoch (all-zero timestamp)
+		fix(dateCrit("window=1d", KE, G, &baskettypes.DateCriteria{StartDateWindow: gdur(24 * time.Hour)})),    // min date -> window
+		fix(dateCrit("years=1", KM, A, &baskettypes.DateCriteria{YearsInThePast: 1})),                          // curator is not the authority
 		fix(Next(time.Second)),
 		fix(Next(24*time.Hour)),
 		fix(Next(366*24*time.Hour)),             // 2024 is a leap year: lands on 2025-01-01
